@@ -256,6 +256,16 @@ def observed_Ts(case, model):
     elif case["fn"] == 3:
         spin_model = qv.utils.pubo_to_puso(model)
     Ts = _anneal._create_spin_schedule(spin_model, s["duration"], None if s["range"] is None else tuple(s["range"]), s["schedule"])
+    # the documented schedule, recomputed here: interpolation between the given range, or the range of
+    # anneal_temperature_range (C15) with (0, 0) replaced by (1, 1)
+    import numpy as np
+    T0, Tf = tuple(s["range"]) if s["range"] is not None else qv.sim.anneal_temperature_range(spin_model, spin=True)
+    if s["range"] is None and T0 == Tf == 0:
+        T0 = Tf = 1
+    mine = list(np.linspace(T0, Tf, s["duration"]) if s["schedule"] == "linear" else np.geomspace(T0, Tf, s["duration"]))
+    if [float(x) for x in Ts] != [float(x) for x in mine]:
+        raise AssertionError("the %s schedule handed to the kernel is %r, the documented interpolation over (%r, %r) with %d steps is %r"
+                             % (s["schedule"], [float(x) for x in Ts], T0, Tf, s["duration"], [float(x) for x in mine]))
     return [F(float(x)) for x in Ts]
 
 
